@@ -554,13 +554,13 @@ def run(ctx: Ctx) -> None:
     os.environ[F.LOG_ENV] = path
     try:
         check_two(ctx, "witness", witness_two())
-        n = ctx.budget(1500, 12000)
+        n = ctx.budget(1500, 9000)
         cases = [gen_two(ctx.rng) for _ in range(n)]
         for i in range(0, len(cases), 1000):
             check_two(ctx, "two-sources", cases[i : i + 1000])
         # O9 is not deterministic between preparations: repeat the witness a few times
         check_three(ctx, "three-witness", witness_three() * 3)
-        check_three(ctx, "three-sources", [gen_three(ctx.rng) for _ in range(ctx.budget(500, 4000))])
+        check_three(ctx, "three-sources", [gen_three(ctx.rng) for _ in range(ctx.budget(500, 3000))])
     finally:
         if old is None:
             os.environ.pop(F.LOG_ENV, None)
